@@ -168,9 +168,17 @@ def membership_guard(ctx, f, step):
                             only_alpha = nd.kind == 'test' and all(
                                 a[0] == 'cmp' and a[1] == 'in' and a[2] == sym and is_alpha(a[3])
                                 for a, _p in flatten_cond(t, True) if any(x == sym for x in walk_term(a)))
+                            if nd.kind == 'stmt':
+                                # ALPHA.index(sym) / ALPHA.find(sym) looks the symbol up in the whole alphabet: no vertex involved
+                                calls_ = [x for x in walk_term(t) if x[0] == 'call' and x[1][0] == 'attr' and
+                                          x[1][2] in ('index', 'find') and any(y == sym for y in walk_term(x))]
+                                only_alpha = bool(calls_) and all(is_alpha(x[1][1]) for x in calls_)
                             if not only_alpha:
                                 mentions = True
-                return 'UNCLASSIFIED' if mentions else None
+                opaque = any(x[0] == 'call' and (x[1][0] == 'v' or (x[1][0] == 'g' and (x[1][1].startswith('?.') or
+                                                                               ctx.p.resolve_func(x[1][1]) is not None)))
+                             for x in walk_term(sym))
+                return 'UNCLASSIFIED' if (mentions or opaque) else None
             hows.add(how)
         if total:
             return 'on all %d paths to the step: %s' % (total, '; '.join(sorted(hows)))
@@ -179,6 +187,11 @@ def membership_guard(ctx, f, step):
     for nd in f.nodes:
         if nd.id in dom and nd.id != step.node.id and node_indexes(nd):
             return 'dominating live_letters.index(symbol) (ValueError when absent)'
+    # a symbol produced by something this analysis does not look into (a local generator, an opaque call): its relation to
+    # the live letters is unknown, not absent
+    for x in walk_term(sym):
+        if x[0] == 'call' and (x[1][0] == 'v' or (x[1][0] == 'g' and (x[1][1].startswith('?.') or ctx.p.resolve_func(x[1][1]) is not None))):
+            return 'UNCLASSIFIED'
     return None
 
 
@@ -665,7 +678,11 @@ def check_table(ctx, name, f, loop, tab):
     exp = EXPECTED[(name, loop.mode)]
     for (deg, member), sums in sorted(tab.items(), key=lambda kv: (kv[0][0], str(kv[0][1]))):
         key = deg if member is None else (deg, member)
-        want = exp[key]
+        want = exp.get(key)
+        if want is None:
+            run.undecided('R-DEG', f, '%s:DEG=%d' % (loop.mode, deg), f.nodes[loop.hid].lineno,
+                          'the loop mixes reader and emitter cases in a way the dispatch table does not describe')
+            continue
         got = _row_signature(name, loop.mode, loop, sums, f, ctx)
         role = '%s:DEG=%d%s' % (loop.mode, deg, '' if member is None else (':member' if member else ':non-member'))
         ext = {'paths': len(sums), 'signature': sorted(map(str, got))}
@@ -1069,16 +1086,30 @@ def r_endian(ctx):
         src = it
         if is_call(it, 'builtins.enumerate') and it[2]:
             src = it[2][0]
-        rev = 0
-        while True:
-            if src[0] == 'sub' and src[2] == ('slice', ('c', None), ('c', None), ('c', -1)):
-                rev, src = rev + 1, src[1]
-            elif is_call(src, 'builtins.reversed') and len(src[2]) == 1:
-                rev, src = rev + 1, src[2][0]
-            elif is_call(src, 'builtins.list', 'builtins.tuple') and len(src[2]) == 1:
-                src = src[2][0]
-            else:
-                break
+        def count_rev(src):
+            rev = 0
+            while True:
+                if src[0] == 'sub' and src[2] == ('slice', ('c', None), ('c', None), ('c', -1)):
+                    rev, src = rev + 1, src[1]
+                elif is_call(src, 'builtins.reversed') and len(src[2]) == 1:
+                    rev, src = rev + 1, src[2][0]
+                elif is_call(src, 'builtins.list', 'builtins.tuple') and len(src[2]) == 1:
+                    src = src[2][0]
+                else:
+                    return rev, src
+        rev, src = count_rev(src)
+        parallel = None
+        if is_call(src, 'builtins.zip') and len(src[2]) == 2 and not src[3]:
+            # two parallel lists (radices, digits) walked together: both reversed, or the zip as a whole
+            (r1, s1), (r2, s2) = count_rev(src[2][0]), count_rev(src[2][1])
+            parallel = (src[2][0], src[2][1], s1, s2)
+            if r1 % 2 != r2 % 2:
+                run.refute('R-ENDIAN', dec, 'horner:reverse-order', nd.lineno,
+                           'the saved radices and the saved digits are walked in opposite directions (%d / %d reversals): each digit '
+                           'meets the radix of another vertex' % (r1, r2), inputs='every message with two or more information nucleotides')
+                found += 1
+                continue
+            rev += r1
         # is it the saved-digit list? (receives append((len(LIVE), digit)))
         paths = ctx.body_paths(dec, nd.id)
         muls, adds = [], []
@@ -1125,6 +1156,38 @@ def r_endian(ctx):
                     (x[0] == 'iter' and want_items[-1:] == [i])
             radix_ok = comp(mbase, 0)
             digit_ok = comp(base, 1)
+            if parallel is not None:
+                # which of the two lists holds the radices?  the one that receives len(LIVE(S))
+                def elem_of(t, zsrc):
+                    t = t[2][0] if is_call(t, 'builtins.str') and len(t[2]) == 1 else t
+                    t = strip_int(t)
+                    return t[0] == 'iter' and t[1] == zsrc
+
+                def receives_radix(lst):
+                    if lst[0] != 'v':
+                        return None
+                    res = None
+                    for x in dec.nodes:
+                        for d in x.defs:
+                            if d.kind == 'mutate' and d.name == lst[1] and isinstance(d.extra, ast.Attribute) and d.extra.attr == 'append' \
+                                    and d.value is not None:
+                                tt = dec.term(d.value, x)
+                                a_ = tt[2][0] if tt[2] else None
+                                if a_ is not None:
+                                    is_r = (is_call(a_, 'builtins.len') and K.live_set(a_[2][0], dec) is not None) or \
+                                        (a_[0] == 'attr' and a_[2] == 'size' and K.live_set(a_[1], dec) is not None)
+                                    res = is_r if res is None else (res and is_r)
+                    return res
+                z1, z2, l1, l2 = parallel
+                rr1, rr2 = receives_radix(l1), receives_radix(l2)
+                if rr1 is True and rr2 is False:
+                    radix_ok, digit_ok = elem_of(mbase, z1), elem_of(base, z2)
+                elif rr2 is True and rr1 is False:
+                    radix_ok, digit_ok = elem_of(mbase, z2), elem_of(base, z1)
+                else:
+                    run.undecided('R-ENDIAN', dec, 'horner:accumulate', e.node.lineno,
+                                  'which of the two parallel lists holds the radices is not recognised')
+                    continue
         run.check(okmul and radix_ok and digit_ok and var == e.name, 'R-ENDIAN', dec, 'horner:accumulate', e.node.lineno,
                   'value <- value * saved radix + saved digit',
                   "the Horner step is %s; required value * radix(component 0) + digit(component 1) on the same "
